@@ -588,3 +588,118 @@ def c19_e(ctx):
     if n < 4:
         ctx.undecided('expected at least 4 float() conversions of batch results in ROMC, '
                       'found {}'.format(n))
+
+
+@obligation('C19-f', 'T9 T12', 'box coordinates are drawn between the left and the right limit '
+            '(argument convention of the uniform generator respected)', floor=2,
+            necessary='scipy takes (loc, scale) = (left, width), numpy takes (low, high) = (left, '
+                      'right): the width handed to numpy as `high` draws outside the box')
+def c19_f(ctx):
+    ctx.fact('scipy.stats.uniform(loc, scale) is uniform on [loc, loc + scale]; '
+             'RandomState.uniform(low, high) and Generator.uniform(low, high) on [low, high)')
+    bb = ctx.cls(BB)
+    sm = ctx.own_method(bb, 'sample')
+    ex = ctx.ex(sm)
+
+    def strip_index(t):
+        # loc[i] -> loc  (per-coordinate draws)
+        while t[0] == 'sub' and t[2][0] in ('elem', 'loop', 'name', 'const') or \
+                (t[0] == 'sub' and t[2][0] == 'elem'):
+            if match(t, pattern('self.limits[:, _]')) is not None:
+                break
+            t = t[1]
+        return t
+    left = pattern('self.limits[:, 0]')
+    right = pattern('self.limits[:, 1]')
+
+    def is_left(t):
+        return match(strip_index(t), left) is not None
+
+    def is_right(t):
+        return match(strip_index(t), right) is not None
+
+    def is_width(t):
+        t = strip_index(t)
+        m = match(t, pattern('_r - _l'))
+        return m is not None and match(m['r'], right) is not None and \
+            match(m['l'], left) is not None
+    n = 0
+    for c in ctx.calls(sm):
+        ft = ex.term(c.func)
+        kw = dict((k.arg, ex.term(k.value)) for k in c.keywords)
+        a = [ex.term(x) for x in c.args]
+        if ft == ('global', 'scipy.stats.uniform') or \
+                match(ft, pattern('ss.uniform')) is not None:
+            n += 1
+            loc = kw.get('loc', a[0] if a else None)
+            scale = kw.get('scale', a[1] if len(a) > 1 else None)
+            ok = loc is not None and scale is not None and is_left(loc) and is_width(scale)
+            ctx.check(ok, sm, 'scipy uniform: loc = left limit, scale = width', '',
+                      'ss.uniform is given loc={}, scale={} (expected the left limit and the '
+                      'width)'.format(show(loc)[:30] if loc else None,
+                                      show(scale)[:30] if scale else None), fn=sm, node=c)
+        elif ft[0] == 'attr' and ft[2] == 'uniform':
+            n += 1
+            low = kw.get('low', a[0] if a else None)
+            high = kw.get('high', a[1] if len(a) > 1 else None)
+            ok = low is not None and high is not None and is_left(low) and is_right(high)
+            ctx.check(ok, sm, 'numpy uniform: low = left limit, high = right limit', '',
+                      'a numpy generator\'s uniform is given low={}, high={} (expected the left '
+                      'and the right limit; the width as `high` draws outside the box)'.format(
+                          show(low)[:30] if low else None, show(high)[:30] if high else None),
+                      fn=sm, node=c)
+    if n < 1:
+        raise AnchorMissing('uniform draw in NDimBoundingBox.sample')
+    # all coordinates are drawn: the loop / the size runs over the number of limits
+    loops = [l for l in own_nodes(sm.node) if isinstance(l, ast.For)]
+    ok = True
+    for l in loops:
+        it = ex.term(l.iter)
+        ok = ok and (contains(it, 'self.limits[:, 0].shape[0]') or
+                     contains(it, 'self.limits.shape[0]') or contains(it, 'len(self.limits)') or
+                     contains(it, 'self.limits'))
+    ctx.check(ok, sm, 'one draw per limit row', 'range(loc.shape[0])',
+              'the per-coordinate loop does not run over the rows of the limits', fn=sm,
+              node=loops[0] if loops else sm.node)
+
+
+@obligation('C19-g', 'T7', 'results computed by a worker pool come back in the order of their '
+            'rows', floor=2,
+            necessary='with completion-order collection row i of the returned densities / weights '
+                      'can belong to another query point')
+def c19_g(ctx):
+    ctx.fact('multiprocessing.Pool.map / starmap / imap keep input order; imap_unordered and '
+             'apply_async + callbacks do not')
+    rp = ctx.cls(RP)
+    ordered = ('map', 'starmap', 'imap', 'map_async', 'starmap_async')
+    unordered = ('imap_unordered', 'apply_async', 'apply')
+    n = 0
+    for m in rp.methods.values():
+        ex = ctx.ex(m)
+        for c in ctx.calls(m):
+            if not (isinstance(c.func, ast.Attribute) and
+                    c.func.attr in ordered + unordered):
+                continue
+            base = ex.term(c.func.value)
+            if not (contains(base, 'Pool(*_)') or contains(base, 'mp.Pool(*_)') or
+                    contains(base, 'multiprocessing.Pool(*_)') or
+                    (isinstance(c.func.value, ast.Name) and 'pool' in c.func.value.id.lower())):
+                continue
+            n += 1
+            if c.func.attr in ordered:
+                ctx.ok(m, 'ordered collection', src(c)[:60], fn=m, node=c)
+                continue
+            # unordered API: acceptable only if the results are put back in order
+            p = getattr(c, '_parent', None)
+            resorted = False
+            while p is not None and not isinstance(p, ast.stmt):
+                if isinstance(p, ast.Call) and isinstance(p.func, ast.Name) and \
+                        p.func.id == 'sorted':
+                    resorted = True
+                p = getattr(p, '_parent', None)
+            ctx.check(resorted, m, 'ordered collection', 'pool.map(...)',
+                      '{} collects the per-row results with {} (completion order) and does not '
+                      'sort them back: row i of the result can belong to another query point'
+                      .format(m.name, c.func.attr), fn=m, node=c)
+    if n < 2:
+        ctx.undecided('expected two pool collections in RomcPosterior, found {}'.format(n))
